@@ -90,4 +90,33 @@ CHECKS = {
                "pair_loop_order_free; direct renumbering check on the "
                "implementation",
  },
+ "C01": {
+  "text": "Theorem (all histories of queries with any argument pattern, "
+          "mutations and evictions = any LRU/maxsize policy): a cached method "
+          "returns the value for the CURRENT fields provided every mutator in "
+          "the history is adequate for it (each field it reads that the "
+          "mutator may change is in its key, or the mutator strictly increases "
+          "a counter in its key; no counter is ever reset); repeated queries "
+          "are equal. The key fields (resolved __cache_state__ through the real "
+          "MRO + decorator attrs), read fields (transitive, with constant "
+          "propagation of None/True/False arguments) and mutators (writes, "
+          "bumps, resets via re-run constructors) of all 23 Cached classes are "
+          "regenerated from the source on every run; the boolean adequacy "
+          "decision is proved sound and evaluated on them by vm_compute; "
+          "every rejected (class, method, mutator) triple must be in a short "
+          "justified list. Correspondence: lru_cache statistics and counter "
+          "movements of the running objects vs the tables. Search: random "
+          "mutator histories on 9 classes, every query compared with two "
+          "fresh twins, query order shuffled.",
+  "design_ref": "DESIGN.md section 5, C01",
+  "note": "trusted: translator py_cache_facts.py (static over-approximation "
+          "of reads/writes; in-place edits through aliases other than "
+          "self.attr / loop variables over self.attr are not seen); hash "
+          "collisions of state tuples; hand-rolled caches outside "
+          "Cached.method (ResNetwork) are covered by the search only; what a "
+          "method computes is abstract (any f with the frame property)",
+  "technique": "Coq proof of cache coherence by invariant over histories + "
+               "vm_compute adequacy decision on tables regenerated from the "
+               "source + fresh-twin differential search",
+ },
 }
